@@ -151,7 +151,9 @@ impl<M: MovingAverageConstructor> AverageDirectionalIndexInstance<M> {
 		let prev_candle = self.window.push(candle);
 		let true_range = self.tr_ma.next(&candle.tr_close(self.prev_close));
 
-		if true_range == 0.0 {
+		// an average of non-negative ranges; a rounding residue (or an overshooting kind of average) may
+		// leave it slightly negative when the true value is zero
+		if true_range <= 0.0 {
 			return (0.0, 0.0);
 		}
 
@@ -165,8 +167,10 @@ impl<M: MovingAverageConstructor> AverageDirectionalIndexInstance<M> {
 		let plus_dm = du * (du > dd && du > 0.) as u8 as ValueType; // +DM
 		let minus_dm = dd * (dd > du && dd > 0.) as u8 as ValueType; // -DM
 
-		let plus_di_value = self.plus_di.next(&plus_dm); // +DI
-		let minus_di_value = self.minus_di.next(&minus_dm); // -DI
+		// both are averages of non-negative movements: a negative rounding residue would make the
+		// directional index (and through it the input of ADX) negative
+		let plus_di_value = self.plus_di.next(&plus_dm).max(0.); // +DI
+		let minus_di_value = self.minus_di.next(&minus_dm).max(0.); // -DI
 
 		(plus_di_value / true_range, minus_di_value / true_range)
 	}
